@@ -216,7 +216,7 @@ void gp_str_join(
  * and is the fastest. locale affects case insensitive sorting and collating.
  * Uses global locale if @p locale_code is NULL.
  */
-GP_NONNULL_ARGS()
+GP_NONNULL_ARGS(1)
 void gp_str_sort(
     GPArray(GPString)* strs,
     int                flags,
